@@ -6,6 +6,7 @@ const char *ntC01 = "non-trivial = saved object has >=1 frame AND (a user parame
 CaseResult runC01(const Case &c, RunCtx &ctx) {
     CaseResult r;
     Interp in(ctx, "C01");
+    in.continueAfterConsistentDeviation = true;
     CountingListener L; in.L = &L;
     in.run(c);
     std::string why;
